@@ -388,9 +388,37 @@ func (c *Cluster) byzFFStep(s *Step) {
 	op := ffTamperOps[s.N%len(ffTamperOps)]
 	if s.Kind == "forge-set" {
 		op = "forged-validator-set"
-		c.forgeValidatorSet(&block, &frame, r)
+		if c.lastForged != nil && r.Bool(0.5) {
+			// a persistent forger: the very same response again (a catching-up node
+			// that refused it asks again)
+			block, frame = hg.Block{}, hg.Frame{}
+			cloneJSON(&c.lastForged.block, &block)
+			cloneJSON(&c.lastForged.frame, &frame)
+			c.stats.probe("ff-forged-set-offered-again")
+		} else {
+			c.forgeValidatorSet(&block, &frame, r)
+			t := &ffTriple{}
+			cloneJSON(&block, &t.block)
+			cloneJSON(&frame, &t.frame)
+			c.lastForged = t
+		}
+	} else if c.lastTampered != nil && !replayed && r.Bool(0.25) {
+		// the very same tampered response again (a node that refused it asks again)
+		block, frame = hg.Block{}, hg.Frame{}
+		cloneJSON(&c.lastTampered.block, &block)
+		cloneJSON(&c.lastTampered.frame, &frame)
+		if block.Signatures == nil {
+			block.Signatures = map[string]string{}
+		}
+		op = c.lastTamperedOp
+		c.stats.probe("ff-tampered-response-offered-again")
 	} else if !c.tamperFF(op, &block, &frame, r) {
 		return
+	} else if !replayed {
+		t := &ffTriple{}
+		cloneJSON(&block, &t.block)
+		cloneJSON(&frame, &t.frame)
+		c.lastTampered, c.lastTamperedOp = t, op
 	}
 	ok, why := acceptable(&block, &frame)
 	prop := "C12"
